@@ -137,7 +137,7 @@ def scan():
     idx = mirlib.index()
     vals, discards = [], []
     for fid, fn in sorted(idx.items()):
-        if fn.get("gen") or fn.get("exp") or _is_test(fn):
+        if fn.get("gen") or fn.get("exp") or _is_test(fn) or fn["pretty"] in DISCARD_OK:
             continue
         acc = None
         assigned = None
